@@ -375,3 +375,34 @@ def incl(a: Any, b: Any, level: str, levels: Dict[str, str]) -> Optional[Witness
                 seen.add(st)
                 dq.append((st, w + (x,)))
     return None
+
+
+def unit(code: Any, level: str, levels: Dict[str, str]) -> Optional[Witness]:
+    """UNIT: a leaf element consumes exactly ONE unit of its level (one record / one operand field):
+    no accepted word of L(code) ∩ K_L contains the unit terminator ('|' resp. ',') other than once, at its end."""
+    A = Lang(code)
+    K = G.Grammar(levels)
+    letters = _letters([A])
+    sep = "|" if level == G.INST else ","
+    start = (A.init(), G.start_states(level), 0)
+    seen = {start}
+    dq = deque([(start, ())])
+    while dq:
+        (a, k, c), w = dq.popleft()
+        if A.acc(a) and w and not (c == 1 and w[-1] == sep):
+            return Witness(w, "code", f"consumes {c} '{sep}'-terminated units (must be exactly one, ending the match)")
+        for x in letters:
+            k2 = K.step(k, x)
+            if not k2:
+                continue
+            a2 = A.step(a, x)
+            if not a2:
+                continue
+            c2 = min(c + 1, 3) if x == sep else c
+            if x != sep and c >= 1 and not (isinstance(x, Sym) and x.kind in ("assert", "capopen", "capclose")):
+                c2 = 3      # text after the terminator
+            st = (a2, k2, c2)
+            if st not in seen:
+                seen.add(st)
+                dq.append((st, w + (x,)))
+    return None
